@@ -213,6 +213,65 @@ def h_committer_primary(p1: int, p2: int, p3: int, split: int, storage: str, ban
     reached()
 
 
+def h_reader_overlap(p1: int, q: int, p2: int, storage: str, band: int, pause: bool = False, qwin: str = '0:12') -> None:
+    """Both threads in the middle of an operation: the reader's whole transaction (poll, read cached-or-load x, load y) is
+    started at yield point p1 of the committer and, wherever it has to wait (reader pool, storage lock), it is SUSPENDED and
+    the committer goes on; it resumes when the committer releases what it waits for."""
+    assume(0 <= p1)
+    if pause:
+        # the reader also stops of its own accord at its qq-th own yield point (lock operations and source lines of the
+        # snapshot-critical functions, e.g. between the two halves of poll_invalidations) and goes on at the committer's
+        # yield point p2 >= p1; it starts during the second commit
+        qlo, qhi = [int(x_) for x_ in qwin.split(':')]
+        qq = pick(q, qlo, qhi)
+        assume(p1 <= p2)
+        lo, hi = (60 + 8 * band, 68 + 8 * band) if band < 7 else (116, 10 ** 9)
+    else:
+        qq = None
+        assume(q == 0 and p2 == 0)
+        lo, hi = [(0, 10 ** 9), (0, 20), (20, 40), (40, 10 ** 9)][band]
+    assume(lo <= p1 < hi)
+    with untraced():
+        sy = Sys(storage)
+        try:
+            sy.commit()
+            sch = sy.sch
+            st = {}
+            sy.r.poll_invalidations()
+            cached = {X: _val(sy.r.load(X)[0])}
+
+            def reader():
+                st['floor'] = sy.done
+                inv = sy.r.poll_invalidations()
+                st['inv'] = inv
+                for o, k in ((X, 'x'), (Y, 'y')):
+                    if inv is None or o in inv or o not in cached:
+                        cached[o] = _val(sy.r.load(o)[0])
+                    st[k] = cached[o]
+            sch.add(p1, reader, tid=1, name='reader', suspendable=True, pause_at=qq, resume_at=p2)
+            with locks.line_points(_line_codes()):
+                sch.start()
+                try:
+                    sch.point('api')
+                    sy.commit()
+                    sch.point('api')
+                    sy.commit()
+                    sch.point('api')
+                    done = sch.finish_suspended()
+                except locks.Blocked:
+                    note('blocked')
+                    sch.stop()
+                    assume(False)
+                sch.stop()
+            assume(done and not sch.pending)
+            assume('y' in st)
+            check(st['x'] == st['y'], 'one transaction read two different points of the commit order', st, sch.trace)
+            check(st['x'] >= st['floor'], 'snapshot older than a commit that had completed before the boundary', st, sch.trace)
+        finally:
+            sy.close()
+    reached()
+
+
 def h_connections(at1: int, at2: int, k: int, storage: str, reuse: bool) -> None:
     """Connection level: a reader connection (with its object cache, optionally closed and reused from the
     pool between its transactions) and a writer connection; k commits injected into the reader's activity."""
@@ -324,6 +383,15 @@ HARNESSES = [
             code=['Connection.newTransaction/open/close/setstate/_flush_invalidations', 'DB.open/_returnToPool', 'MVCCAdapterInstance.*'],
             quick=dict(timeout=170, shards=shards(k=[1], storage=['file', 'mapping'], reuse=[False, True])),
             thorough=dict(timeout=1200, shards=shards(k=[1, 2], storage=['file', 'mapping'], reuse=[False, True]))),
+    Harness('reader_overlap', h_reader_overlap,
+            decides='a reader transaction (connection with an object cache) started at any yield point of a committer and SUSPENDED '
+                    'wherever it has to wait - so that both are in the middle of an operation - still reads one point of the commit order, '
+                    'not older than the commits completed before its boundary',
+            symbolic='start point p1 of the reader over lock operations, file-system calls, API boundaries and source lines of the snapshot-critical functions',
+            bounds='2 commits, 1 reader transaction that starts during the second commit; besides waiting, the reader stops once of its own accord at one of its own yield points (quick: the 6 points around the two halves of poll_invalidations; thorough: its first 12) and resumes at a later yield point of the committer; the reader runs in a helper thread under strict hand-over (one thread runs at a time)',
+            oracle='equal counters + floor', code=['FileStorage.loadBefore / _lookup_pos / FilePool.get', 'FileStorage.tpc_finish', 'MVCCAdapterInstance.poll_invalidations/load'],
+            quick=dict(timeout=240, shards=shards(storage=['file'], band=[1, 2, 3], pause=[False]) + shards(storage=['file'], band=[0, 1, 2, 3, 4, 5, 6, 7], pause=[True], qwin=['3:9'])),
+            thorough=dict(timeout=1200, shards=shards(storage=['file', 'mapping'], band=[0], pause=[False]) + shards(storage=['file', 'mapping'], band=[0, 1, 2, 3, 4, 5, 6, 7], pause=[True], qwin=['0:12']))),
     Harness('commit_order', _commit_order,
             decides='two committers of different objects, the second one\'s whole commit injected at any yield point of the first one\'s '
                     'two-phase commit: transaction ids follow the order in which the commits finish and lastTransaction is the newest - '
@@ -341,7 +409,7 @@ MANIFEST = dict(
          'explored and the bounded schedule space is exhausted.  Every explored schedule is a real schedule (the injected step '
          'respects mutual exclusion), so a violation is a real interleaving; the solver certifies that no injection point '
          'inside the bound was skipped.',
-    note='context bound: 1-3 injected atomic steps; schedules where both threads are mid-operation simultaneously beyond that, '
+    note='context bound: 1-3 injected atomic steps, plus reader_overlap (one reader transaction that is suspended where it has to wait and stops once of its own accord); other schedules where both threads are mid-operation simultaneously, '
          'bytecode-level preemption outside the listed functions, and three or more threads are outside the claim; packer '
          'interleavings are C08; the injected reader of committer_primary keeps a cached x from an earlier transaction.',
     design_ref='DESIGN.md section 4, C02',
